@@ -49,4 +49,16 @@ CHECKS["C07"] = {
     "technique": "inter-procedural effect analysis (points-to fixpoint + returns/mutates summaries) with reset-coverage and exit-path rules",
 }
 
+CHECKS["C17"] = {
+    "text": "Decides, on source that no test imports, the order and shape clauses of the property: constructor validation, the event "
+            "order on every enumerated path of execute_result_async (fresh executor, docker metadata registered, package generated into the "
+            "temp dir, /data/<name> list in self.files order, same-directory equality test raising before docker.run), the docker.run call "
+            "shape (image default + md[-1] override under len(md)>0, /scripts/<main_script>, the three mounts and modes, cache volumes, "
+            "remove=True), re-raise in every except clause with the single return after the run through _extract_result_TTree, the "
+            "TemporaryDirectory context manager around everything, and agreement with the runner scripts and backend executors.",
+    "note": "Trusted: python_on_whales.docker.run and tempfile.TemporaryDirectory semantics. Not decided: behaviour of docker, partial output of a "
+            "failing container, what the image does with the mounts.",
+    "technique": "structured path enumeration + control-dependence guards + call-shape matching over ast; regex facts from runner.sh",
+}
+
 NOT_APPLICABLE = {}
